@@ -318,13 +318,83 @@ def covered_motifs():
     return pool
 
 
-def run_family(ctx, out, n_quick=130, n_thorough=2500, ops_range=(14, 30)):
+def scenarios():
+    """Scenario family: a base `B` (reference `s`, `f` reading it by name, `g` calling `f`, `h` calling `g`), a sub
+    space `C(B)` that overrides nothing or the reference or `f`, a sub space `D(C)` below it; each of `f`, `g`
+    cached or uncached (the derived copies take the flag); everything evaluated; ONE structural edit in the base
+    (or in the middle space); everything evaluated again.  What is compared after every step is the set of held
+    elements: the edit must discard exactly what the machine's clearing discards - in `C` and `D` as in `B`."""
+    F = lambda i, k=1, a="f", r="s": (i, k, a, r, "X")     # noqa
+    edits = [
+        [["set_formula", "B", "f", F(6, 3)]], [["set_formula", "B", "g", F(12, 2, "f", "s")]],
+        [["set_cached", "B", "f", "FLIP"]], [["set_cached", "B", "g", "FLIP"]],
+        [["set_ref", "B", "s", 5]], [["del_ref", "B", "s"]], [["del_ref", "B", "s"], ["set_ref", "B", "s", 6]],
+        [["del_cells", "B", "f"]], [["del_cells", "B", "f"], ["new_cells", "B", "f", F(0, 4)]],
+        [["rename_cells", "B", "f", "k"]], [["new_cells", "C", "f", F(0, 7)]], [["set_ref", "C", "s", 8]],
+        [["set_formula", "C", "g", F(1, 5, "f")]], [["remove_bases", "C", ["B"]]],
+        [["new_space", "-", "A", []], ["new_cells", "A", "f", F(0, 9)], ["add_bases", "C", ["A"]]],
+        [["new_space", "-", "A", []], ["set_ref", "A", "s", 9], ["add_bases", "D", ["A"]]],
+        [["del_space", "B"]], [["del_space", "C"]], [["new_cells", "B", "k", F(1, 1, "h")]],
+        [["set_value", "C", "f", 1, 25], ["set_formula", "B", "f", F(6, 2)]],
+        [["set_value", "B", "f", 1, 25], ["set_ref", "B", "s", 4]],
+    ]
+    cases = []
+    for fc in (1, 0):
+        for gc in (1, 0):
+            for over in ("none", "ref", "cells"):
+                base = [["new_space", "-", "B", []], ["set_ref", "B", "s", 1], ["new_cells", "B", "f", F(2, 1)],
+                        ["new_cells", "B", "g", F(1, 1, "f")], ["new_cells", "B", "h", F(1, 2, "g")],
+                        ["new_space", "-", "C", ["B"]], ["new_space", "-", "D", ["C"]]]
+                if not fc:
+                    base.append(["set_cached", "B", "f", 0])
+                if not gc:
+                    base.append(["set_cached", "B", "g", 0])
+                if over == "ref":
+                    base.append(["set_ref", "C", "s", 3])
+                if over == "cells":
+                    base.append(["set_formula", "C", "f", F(0, 2)])
+                for e in edits:
+                    ee = [[(1 - (fc if o[2] == "f" else gc)) if x == "FLIP" else x for x in o] for o in e]
+                    cases.append([list(o) for o in base] + [["evalall"]] + ee + [["evalall"]])
+    return cases
+
+
+def run_history(ops, out, stats):
+    from . import struct_props as S
+    from .impl import close_all
+    close_all()
+    live = W.Live("M")
+    ec = EditCorr()
+    hist_of = lambda k: S.hist_json(ops, k)      # noqa
+    try:
+        for k, op in enumerate(ops):
+            ec.before(live, k, op)
+            if op[0] == "evalall":
+                S.eval_everything(live)
+                r = "ok"
+            else:
+                r = live.apply(op)
+            ec.after(live, ops, k, op, r, out, hist_of)
+            if not ec.alive:
+                break
+    finally:
+        live.close()
+        close_all()
+    ec.stats_into(stats)
+    stats["edit_scenarios"] += 1
+
+
+def run_family(ctx, out, n_quick=90, n_thorough=2500, ops_range=(14, 30)):
     """random histories restricted to the machine's vocabulary (no model-level references, formulas by name), after a
     motif program: the whole history is compared"""
     from . import struct_props as S
     from .impl import close_all
     stats = collections.Counter()
     pool = covered_motifs()
+    for ops in scenarios():
+        run_history(ops, out, stats)
+        if out.disagreements:
+            return stats
     for i in range(ctx.n(n_quick, n_thorough)):
         rng = ctx.rng("edit", i)
         close_all()
